@@ -36,9 +36,13 @@ REQUIRED = {'extreme-error-bars': 0.1, 'retargeted:after-use': 0.1, 'retargeted:
 POOL = ['planet_radius', 'T', 'mol0', 'mol1', 'fill', 'clouds_pressure']
 
 
+STRATA = {'nestle': 2, 'multinest': 1, 'polychord': 1}
+STRATA_KEY = 'sampler'
+
+
 @st.composite
-def _case(draw):
-    sampler = draw(st.sampled_from(['nestle', 'multinest', 'polychord', 'nestle']))
+def _case(draw, sampler=None):
+    sampler = sampler or draw(st.sampled_from(['nestle', 'multinest', 'polychord', 'nestle']))
     family = draw(st.sampled_from(['transmission', 'emission', 'transmission']))
     k = draw(S.ints(1, 5))
     fitted = draw(S.perm(POOL))[:k]
@@ -65,8 +69,8 @@ def _case(draw):
             'points': pts, 'ngauss': draw(S.ints(1, 3)), 'retarget': draw(st.sampled_from(['after-use', 'before-use', False, 'after-use', 'before-use', False]))}
 
 
-def strategy(tier):
-    return _case()
+def strategy(tier, part=None):
+    return _case(part)
 
 
 def param_name(role, w):
